@@ -599,11 +599,8 @@ impl Fiber {
     let mut stack = UniqueVector::new(allocator.manage(VecBuilder::new(undefined, stack_count), context));
     allocator.push_root(stack);
 
-    // Assign the frame to the start of the stack and write in the fun
+    // Assign the frame to the start of the stack
     let stack_start = stack.as_mut_ptr();
-    unsafe {
-      ptr::write(stack_start, val!(fun));
-    }
     frame.store_stack_start(stack_start);
 
     // Create the initial set of frames
@@ -636,8 +633,9 @@ impl Fiber {
     let new_fiber = allocator.manage(new_fiber, context);
 
     unsafe {
-      // Copy argument from the parent to the child fiber
-      ptr::copy_nonoverlapping(parent_stack_top.add(1), stack_start.add(1), arg_count);
+      // Copy the callee slot (the function, or the receiver of a method)
+      // and the arguments from the parent to the child fiber
+      ptr::copy_nonoverlapping(parent_stack_top, stack_start, arg_count + 1);
 
       // Effectively pop the current fibers frame so they're 'moved'
       // to the new fiber
